@@ -661,6 +661,21 @@ func Build(fd Font, variant int) (*Built, error) {
 				m[uint16(p[0])] = glyph.ID(p[1])
 			}
 			data = m.Encode(0)
+		case st.Ok && st.Kind == "f0mac":
+			// byte encoding table of the Macintosh platform: the mapping is given in Unicode and stored under
+			// the Mac OS Roman codes of its characters
+			m := &cmap.Format0{}
+			for _, p := range st.M {
+				code, ok := macRomanCode[p[0]]
+				if !ok && p[0] < 128 {
+					code, ok = p[0], true
+				}
+				if !ok {
+					return nil, fmt.Errorf("character %d has no Mac OS Roman code known to the harness", p[0])
+				}
+				m.Data[code] = byte(p[1])
+			}
+			data = m.Encode(0)
 		case !st.Ok:
 			var err error
 			data, err = BadSubtable(st.Kind)
@@ -845,3 +860,7 @@ func Items(seq []glyph.Info) []Item {
 	}
 	return res
 }
+
+// macRomanCode: the Mac OS Roman codes of the non-ASCII characters the cases use (Unicode consortium mapping).
+var macRomanCode = map[int]int{196: 0x80, 197: 0x81, 199: 0x82, 201: 0x83, 209: 0x84, 214: 0x85, 220: 0x86, 225: 0x87,
+	224: 0x88, 226: 0x89, 228: 0x8A, 227: 0x8B, 229: 0x8C, 231: 0x8D, 233: 0x8E, 232: 0x8F}
